@@ -144,6 +144,13 @@ func analyseMethod(spec lockSpec, fd *ast.FuncDecl, helperNames map[string]bool)
 					mi.calls[sel.Sel.Name] = append(mi.calls[sel.Sel.Name], st)
 				}
 			}
+			// taking a timestamp is part of the critical section of the replicated stores: the order of the stamps must
+			// be the order in which the updates are applied (a stamp read before the lock is taken can be overtaken)
+			if c, ok := x.(*ast.CallExpr); ok && strings.HasPrefix(spec.name, "d") {
+				if id, ok := c.Fun.(*ast.Ident); ok && id.Name == "clock" {
+					mi.accesses = append(mi.accesses, lockEntry{loc: spec.name + ".stamp", method: fd.Name.Name, write: true, held: []string{st}})
+				}
+			}
 			se, ok := x.(*ast.SelectorExpr)
 			if !ok || exprString(se.X) != mi.recvName {
 				return true
